@@ -427,6 +427,7 @@ class Exec:
         return [(st, 'next', None)]
 
     def st_With(self, node, st):
+        closers = []
         for it in node.items:
             txt = ast.unparse(it.context_expr)
             if txt.startswith('np.errstate') or txt.startswith('numpy.errstate') or 'catch_warnings' in txt:
@@ -441,8 +442,25 @@ class Exec:
                 if it.optional_vars is not None:
                     self.assign(it.optional_vars, v, st, node)
                 continue
+            if isinstance(it.context_expr, ast.Call):
+                v = None
+                try:
+                    v = self.eval(it.context_expr, st)
+                except Unsupported:
+                    v = None
+                if isinstance(v, AbsObj):
+                    # with <abstract resource> as f: the resource itself is what is bound (h5py.File, a lock ...); leaving the block
+                    # is recorded as an event so that contracts can speak about it
+                    if it.optional_vars is not None:
+                        self.assign(it.optional_vars, v, st, node)
+                    closers.append(v)
+                    continue
             raise Unsupported('with %s' % txt)
-        return self.exec_block(node.body, st)
+        outs = self.exec_block(node.body, st)
+        for s2, k, p in outs:
+            for v in closers:
+                s2.trace.append(('ev', ('exit', v.cls, v.ident)))
+        return outs
 
     def st_Assign(self, node, st):
         v = self.eval(node.value, st)
